@@ -8,6 +8,7 @@
 
 from __future__ import annotations
 
+import cmath
 import enum
 import inspect
 import numbers
@@ -192,7 +193,7 @@ def is_enum(value: Any) -> bool:
 def is_assertable(obj: Any, recursion_depth: int = 0) -> bool:
     """Returns whether we can generate an assertion using an exact comparison value.
 
-    Primitives (except float) are assertable.
+    Primitives (except float and complex values with a NaN part) are assertable.
     Enum values are assertable.
     List, sets, dicts and tuples composed only of assertable objects are also
     assertable.
@@ -212,6 +213,9 @@ def is_assertable(obj: Any, recursion_depth: int = 0) -> bool:
         return False
     if isinstance(obj, float):
         # Creating exact assertions on float values is usually not desirable.
+        return False
+    if isinstance(obj, complex) and cmath.isnan(obj):
+        # NaN is not equal to itself, so an exact assertion could never hold.
         return False
 
     tp_ = type(obj)
